@@ -993,6 +993,8 @@ def engine_traces(ctx):
     # the run of the same program without duplicates
     from harness import engine_explore as ee
     ee.explore(ctx, ['C06'], ee.FEATURES + ['subwf', 'joinsub', 'defaults'], ctx.n(27, 270), 3, suite='engine_explore_C06', dups=True)
+    # start requests issued by a resume for tasks that were IDLE, redelivered while the task is RUNNING or PAUSED
+    ee.explore(ctx, ['C06'], ['pausedsub'], ctx.n(10, 100), 4, suite='engine_explore_C06_paused', pause_heavy=True, dups=True)
 
 
 def run(ctx):
